@@ -176,6 +176,8 @@ func (s *Spec) argv(v *Variant, csvPath string, paths []string) []string {
 	switch v.Mode {
 	case "csv":
 		a = append(a, "--csv", "-")
+	case "noout":
+		a = append(a, "--noout", "-o", csvPath)
 	case "snap":
 		if !v.ImplSnap {
 			a = append(a, "--snapshot")
